@@ -433,12 +433,40 @@ func c09(c *Ctx) {
 					put = !back
 					// early exit: anything after the loop reachable from the body without passing the header (returns excluded)
 					inBody := g.Reach(bodyStart, func(x int) bool { return x == head }, nil)
+					inside := func(x int) bool {
+						return g.V[x].Node != nil && rs.Body.Pos() <= g.V[x].Node.Pos() && g.V[x].Node.End() <= rs.Body.End()
+					}
 					for x := range g.V {
 						if !inBody[x] || g.V[x].Node == nil || x == g.Exit {
 							continue
 						}
-						if !(rs.Body.Pos() <= g.V[x].Node.Pos() && g.V[x].Node.End() <= rs.Body.End()) {
-							skip = true // left the loop body without going through the header: break / goto
+						if inside(x) {
+							continue
+						}
+						// left the loop body without going through the header: break / goto — unless every way out starts where an
+						// error is known to be set (an expanded helper's `return nil, err` is `{ …, err = nil, e; break L }`)
+						errExit := true
+						for _, p := range g.V {
+							if !inBody[p.ID] && p.ID != bodyStart || !inside(p.ID) {
+								continue
+							}
+							for _, e := range p.Succ {
+								if e.To != x {
+									continue
+								}
+								known := false
+								for _, fct := range g.FactsAt(p.ID) {
+									if _, isNil, isCmp := nilCompare(info, fct); isCmp && !isNil {
+										known = true
+									}
+								}
+								if !known {
+									errExit = false
+								}
+							}
+						}
+						if !errExit {
+							skip = true
 						}
 					}
 				}
@@ -753,6 +781,14 @@ func c09(c *Ctx) {
 		r.Check(okRec, "C09.L11", fi.Name(), "a database that is reported corrupted is recovered", c.P.Pos(fi.Node().Pos()), "leveldb.RecoverFile on the error edge of OpenFile",
 			"NewLevelDBStore no longer falls back to leveldb.RecoverFile: after a kill that tears the last manifest record the store refuses to open, although every acknowledged entry is still in the table and journal files")
 	}
+	// ---------- L7b the writers report success only after the write: raft takes nil from Set / SetUint64 / StoreLogs for
+	// "durable" (its current term and vote; the entries it is about to acknowledge)
+	for _, mn := range []string{"Set", "SetUint64", "StoreLogs", "StoreLogProto"} {
+		if fi := method(mn); fi != nil {
+			c.succeedsOnlyByWriting("C09.L7", fi, mn+" can return nil without having written to LevelDB (a fast path for an 'unset', 'unchanged' or 'already stored' value): raft believes its term, its vote or an entry is durable that is not — after a restart the node votes twice in one term or has lost an acknowledged entry")
+		}
+	}
+
 	// ---------- L9 iterator discipline
 	{
 		nPos := 0
